@@ -10,12 +10,18 @@ python3 tools/assemble.py || exit 1
 (cd go && go build -o ../bin/extract ./cmd/extract) || echo "setup: extract does not build"
 ./bin/extract -repo /repo -out lean/ScriggoV/Gen || echo "setup: some generators failed"
 (cd lean && lake build ScriggoV.Basic.Bytes)
-for f in lean/ScriggoV/Props/C*.lean; do
-  p=$(basename "$f" .lean)
-  (cd lean && lake build ScriggoV.Props.$p >/dev/null 2>&1 && lake build driver_$p >/dev/null 2>&1) || echo "setup: $p does not build"
-done
+# everything at once first (lake and go build in parallel); per property only if that fails
+targets="ScriggoV"
+for f in lean/Drivers/C*.lean; do targets="$targets driver_$(basename "$f" .lean)"; done
+if ! (cd lean && lake build $targets >/dev/null 2>&1); then
+  for f in lean/ScriggoV/Props/C*.lean; do
+    p=$(basename "$f" .lean)
+    (cd lean && lake build ScriggoV.Props.$p >/dev/null 2>&1 && lake build driver_$p >/dev/null 2>&1) || echo "setup: $p does not build"
+  done
+fi
 for d in go/props/c*; do
   p=$(basename "$d" | tr c C)
-  (cd go && go build -tags verif -o ../bin/harness_$p ./props/$(basename "$d")) >/dev/null 2>&1 || echo "setup: harness $p does not build"
+  ( (cd go && go build -tags verif -o ../bin/harness_$p ./props/$(basename "$d")) >/dev/null 2>&1 || echo "setup: harness $p does not build" ) &
 done
+wait
 echo setup done
